@@ -165,7 +165,7 @@ _ALL = {
              'released 5.6.3 reference (P3); a tested parameter is used (P4); connections are per thread and re-opened '
              'after fork/close (L6).',
              'Byte-level readability of pickles across Python versions is not decided.'),
-    'C19': P(['D1', 'D2', 'D3', ('S6', r'djangocache'), ('R2', r'DjangoCache'), 'R3'],
+    'C19': P(['D1', 'D2', 'D3', 'D4', ('S6', r'djangocache'), ('R2', r'DjangoCache'), 'R3'],
              'key/timeout dataflow through the adapter + abstract evaluation of get_backend_timeout on 5 input classes',
              'Does NOT decide the full backend contract over histories. Decides: every key goes downstream as '
              'make_key(key, version=version) (D1); every timeout goes through get_backend_timeout, which maps the '
